@@ -29,7 +29,7 @@ MANIFEST = {
 
 NEUTRAL_DERIVES = {"Serialize", "Deserialize", "JsonSchema", "Decode"}
 NEUTRAL_ATTR_PAYLOAD = {"serde", "schemars", "doc", "allow", "deprecated", "no_std", "must_use", "inline"}
-NEUTRAL_IMPL_TRAITS = {"Serialize", "Deserialize", "JsonSchema", "JsonSchemaMaybe"}
+NEUTRAL_IMPL_TRAITS = {"Serialize", "Deserialize", "JsonSchema", "JsonSchemaMaybe", "Decode"}
 KNOWN_FEATURES = {"default", "std", "derive", "docs", "decode", "bit-vec", "schema", "serde"}
 VEC_PLUMBING = {"alloc::boxed::Box::new_uninit", "alloc::boxed::box_assume_init_into_vec_unsafe", "alloc::slice::<impl [T]>::into_vec",
                 "alloc::boxed::Box::new", "alloc::alloc::exchange_malloc", "alloc::boxed::box_new_uninit"}
